@@ -35,7 +35,7 @@ pub fn gen_library(r: &mut Rng, big: bool) -> Vec<(String, String)> {
                 match r.below(6) {
                     0 | 1 => {
                         let target = if r.chance(1, 8) { "missing".to_string() } else { r.pick(&keys[..]).clone() };
-                        let link = Key::from_file_name(&target).to_rel_link_url(&dir);
+                        let link = crate::oracle::md::rel_url(&target, &dir);
                         let link = if link.is_empty() { target.clone() } else { link };
                         text.push_str(&format!("[ref]({})\n\n", link));
                     }
@@ -321,7 +321,8 @@ pub fn run(ctx: &Ctx, model: &mut Model, rep: &mut Report) {
                 }
             }
         }
-        let via = crate::act::via_for(i as u64);
+        // every edit recomputes all outline paths: the big libraries are loaded in one go
+        let via = if lib.len() > 8 || lib.iter().map(|(_, t)| t.len()).sum::<usize>() > 4000 { crate::act::Via::Import } else { crate::act::via_for(i as u64) };
         rep.count(&format!("loaded_via_{:?}", via));
         if let Some(what) = crate::act::with_via(via, || check_library(&lib)) {
             if d17_open && has_reference_cycle_without_root(&lib) && what.contains("is the end of no listed path") {
